@@ -2,14 +2,30 @@
 (* C20, the declarative part: which ICU option families a set of uses needs. *)
 EXTENDS Common
 
-Feats  == {"plural", "number", "date", "time", "datetime", "list", "currency"}
+BaseFeats == {"plural", "number", "date", "time", "datetime", "list", "currency"}
+\* composite features: several kinds of use inside one value
+\*   range          an integer range (needs no ICU data)
+\*   range_number   a range whose branches format the count with `number`
+\*   plural_number  a plural whose forms format the count with `number`
+\*   plural_currency a plural whose forms format the count with `currency`
+\*   plural_date    a plural whose forms format another variable with `date`
+\*   number_list    one string, two variables, two formatters
+MixFeats == {"range", "range_number", "plural_number", "plural_currency", "plural_date", "number_list"}
+Feats  == BaseFeats \cup MixFeats
 Wheres == {"t", "g.s", "g.h.u"}
 OptionOf(f) == CASE f = "plural" -> "Plurals" [] f = "number" -> "FormatNums" [] f = "list" -> "FormatList"
                  [] f = "currency" -> "FormatCurrency" [] OTHER -> "FormatDateTime"
+OptionsOf(f) == CASE f = "range" -> {}
+                  [] f = "range_number" -> {"FormatNums"}
+                  [] f = "plural_number" -> {"Plurals", "FormatNums"}
+                  [] f = "plural_currency" -> {"Plurals", "FormatCurrency"}
+                  [] f = "plural_date" -> {"Plurals", "FormatDateTime"}
+                  [] f = "number_list" -> {"FormatNums", "FormatList"}
+                  [] OTHER -> {OptionOf(f)}
 
 Use(unit, where, loc, feat) == [unit |-> unit, where |-> where, loc |-> loc, feat |-> feat]
 
 \* the property
-Needs(uses) == { OptionOf(u.feat) : u \in uses }
+Needs(uses) == UNION { OptionsOf(u.feat) : u \in uses }
 
 =============================================================================
